@@ -24,6 +24,7 @@ import FxVerif.Model.C08Sol
 import FxVerif.Gen.C08d
 import FxVerif.Model.C08DepI
 import FxVerif.Proofs.C08Dep
+import FxVerif.Proofs.C08DepX
 /-!
 # C08 — coin ↔ ERC-20 conversion conserves value and keeps the token-pair books balanced
 
@@ -1492,6 +1493,38 @@ example :
       (fun r => (r.1, r.2.1 (.bal 0), r.2.1 (.bal 1), r.2.1 .supply, r.2.2)) = some (true, 140, 10, 250, 250) := by
   refine ⟨by rw [← FxVerif.Proofs.C08Cache.coherentTxB_iff]; decide, ?_⟩
   rw [iTxResult_eq]
+  decide
+
+/-- **transactions WITH sub-call frames: the model IS the execution of the fork's source.**  For EVERY transaction of
+token programs, keeper-level nested calls and frames whose failure the caller swallows: executed with the regenerated
+`GetState` / `SetState`, a frame being `Snapshot` (journal length + native store), the group, and on failure the regenerated
+journal replay (`storageChange.Revert` per entry, newest first, truncation) followed by the restore of the native store and
+escrow, fresh StateDBs for nested calls, the regenerated `Commit` loop at the end — the interpretation never gets stuck and
+yields exactly `txResultX`.  (After a revert the interpreted `dirtyStorage` holds the replayed entries where the model maps
+over the list; the proof carries the slot-wise equality of the two through every later read, write, nested call, revert
+and the commit.)  So `mixed_tx_frames_coherent_general`, `failed_frame_is_invisible_general` and the frame witnesses
+(`mixed_tx_failed_frame_stale_read_creates_tokens`, `mixed_tx_reverted_write_creates_tokens`,
+`mixed_tx_failed_frame_caches_reverted_burn`) are statements about the source as written. -/
+theorem mixed_tx_frames_model_matches_statedb_source (steps : List XStep) (st : Store) (esc : Nat) :
+    iTxResultX steps st esc = some (txResultX steps st esc) :=
+  iTxResultX_eq steps st esc
+
+/-- the general coherence theorem for frames over the interpreted source -/
+theorem mixed_tx_frames_coherent_source (steps : List XStep) (st : Store) (esc : Nat)
+    (hc : CoherentXG steps ⟨{ store := st }, esc⟩) : iTxResultX steps st esc = some (seqResultX steps st esc) := by
+  rw [iTxResultX_eq, mixed_tx_frames_coherent_general steps st esc hc]
+
+/-- non-vacuity of `mixed_tx_frames_coherent_source` (`[ b20 f999 ] t5`: a frame that fails after a completed keeper-level
+burn without having touched the burnt slot), and the round-4 witness through the interpreted source (`[ b20 t99999 ] t5`:
+the holder loses 20 more than it sent) -/
+example :
+    CoherentXG [.attempt [.nested (burn 0 20) 20 0, .evm (transferFrom 0 4 1 999) 0], .plain (.evm (transfer 0 1 5) 0)]
+      ⟨{ store := store0X 50 0 0 100 0 30 10 }, 100⟩ ∧
+    (iTxResultX [.attempt [.nested (burn 0 20) 20 0, .evm (transfer 0 1 99999) 0], .plain (.evm (transfer 0 1 5) 0)]
+      (store0 50 0 0 100 0) 100).map (fun r => (r.1, r.2.1 (.bal 0), r.2.1 (.bal 1), r.2.1 .supply, r.2.2)) =
+      some (true, 25, 5, 100, 100) := by
+  refine ⟨by rw [← FxVerif.Proofs.C08Cache.coherentXGB_iff]; decide, ?_⟩
+  rw [iTxResultX_eq]
   decide
 
 end StateDBSource
